@@ -217,6 +217,13 @@ void copies_and_misc(graph& g) {
     (void)an.gateway();
     auto body = copy_body<std::function<int(const int&)>>(f);
     (void)body;
+    // senders of continue_msg use the successor_cache<continue_msg> specialisation (it keeps continue receivers' predecessor counts)
+    buffer_node<continue_msg> cb(g); queue_node<continue_msg> cq(g); limiter_node<continue_msg> cl(g, 2);
+    broadcast_node<continue_msg> cbc(g); overwrite_node<continue_msg> cow(g);
+    continue_node<continue_msg> cc(g, [](const continue_msg&) -> continue_msg { return continue_msg(); });
+    make_edge(cb, cc); make_edge(cq, cc); make_edge(cl, cc); make_edge(cbc, cc); make_edge(cow, cc);
+    remove_edge(cb, cc); remove_edge(cq, cc); remove_edge(cl, cc); remove_edge(cbc, cc); remove_edge(cow, cc);
+    cb.try_put(continue_msg()); cq.try_put(continue_msg()); cl.try_put(continue_msg());
     for (graph::iterator it = g.begin(); it != g.end(); ++it) { (void)*it; }
     const graph& cg = g;
     for (graph::const_iterator it = cg.cbegin(); it != cg.cend(); it++) {}
